@@ -245,7 +245,7 @@ def r3(ctx):
     if len(seen) < 6:
         raise AnalysisError(f"only {len(seen)} ending scenarios explored")
     # KeyboardInterrupt raised inside a callback: still exactly one on_close, and nothing after it
-    for cb in ("on_message", "on_close", "on_open"):
+    for cb in ("on_message", "on_close", "on_open", "on_error"):
         I3, outs3 = run_forever_paths(ctx, reconnect=0, interrupt_in=cb)
         n = 0
         bad = None
@@ -255,6 +255,9 @@ def r3(ctx):
             n += 1
             calls = [e.name for e in user_calls(o)]
             ok = calls.count("on_close") == 1 and calls[-1] == "on_close" and _app_fields(o).get("sock") == NONE
+            if cb == "on_error" and o.kind == "return":
+                # the error was handed to the application before the interrupt: the run is a failed one, whatever interrupted the handler
+                ok = ok and o.value == TRUE
             if not ok:
                 bad = bad or (calls, o)
         if n == 0:
